@@ -33,6 +33,9 @@ RULE = ("rows: Hypothesis draws an environment (fluence 1e2..1e16, Cd ratio in {
         "s2 t > 1e-3; distinct by (row, environment). samples: formulas of 1..4 atoms (natural elements, isotopes, "
         "ions, isotope ions, D, T) x both abundance functions; oracle = sum over atoms of mass fraction x abundance "
         "(abundances re-read from the embedded NIST table text / activation.dat) x activity(isotope); all non-trivial. "
+        "aimed: for every '2n' row x Cd ratio {0,1,20} the fluences at which two of the three rates coincide (computed "
+        "from the independent reading), at relative offsets 0, +-1e-9, +-1e-7, +-5e-7, +-3e-6, exposure = product half-life "
+        "and a tenth of it; every 'b' row with its parent half-life set to T(1+delta) (synthetic record); same oracle. "
         "table: every parsed field of every row equals the independent reading, every isotope serves exactly the rows of "
         "the file, and the file agrees with itself: for all 92 'b'/'2n' rows the parent half-life equals the half-life of "
         "the row that produces that parent (the line above, through 'b' rows), production and intermediate cross "
@@ -52,8 +55,10 @@ ASSUMPTIONS = [
     "mass number as molar mass; half-life = the 't1/2 in hr' column",
     "tolerance 1e-9 relative is taken as 'double-precision rounding of the solution' (a backward-stable evaluation "
     "of these closed forms is within ~1e-12 over the whole domain); absolute floor 1e-290 uCi for underflow",
-    "kappa is a first-order rounding-error bound of the formulation in activation.py; factor 64 (measured maximum "
-    "on the unchanged tree: 0.25)",
+    "kappa is a first-order rounding-error bound of the formulation in activation.py: term rounding sum|T_i|(6+k_i t)/|S| "
+    "plus the conditioning of the exact solution with respect to each rate (finite difference), plus (s2+lamp)/s2 for "
+    "'2n'; factor 64 (measured maximum on the unchanged tree, random and aimed probes: 0.24); a ZeroDivisionError of "
+    "the '2n' branch where two rates agree to 8 eps (kappa = inf) is counted with the cancellation finding S17",
     "sample-level checks use activity() of the isotope as the base (metamorphic), the row-level checks decide its "
     "accuracy; atom masses are taken from the table (C06 decides them)",
     "fast ratio (thermal/fast) is generated in {0} u [1e-3, 1) u {1} u (1, 1e3]: fast reactions are omitted only for 0, "
@@ -270,6 +275,22 @@ def classify(row, envd, exposure, got, ref):
     return "wrong-value", "value %r exact %.17g rel.err %.3g > 64*eps*kappa = %.3g" % (got, fl(ref), rel, bound)
 
 
+def coincident_rates(row, envd):
+    """Two of the rates (s1, s2 + lamp, lam) of a '2n' chain agree to within 8 eps."""
+    from decimal import localcontext
+    with localcontext() as c:
+        c.prec = 50
+        r = ra.rates(row, envd["fluence"], envd["Cd"], envd["fast"])
+        if r is None or r["lamp"] is None:
+            return False
+        ks = [r["s1"], r["s2"] + r["lamp"], r["lam"]]
+        for i in range(3):
+            for j in range(i):
+                if abs(ks[i] - ks[j]) <= D(8 * ra.EPS) * max(abs(ks[i]), abs(ks[j])):
+                    return True
+    return False
+
+
 def nontrivial_row(row, det):
     br = ra.branch(row)
     if br != "act":
@@ -344,7 +365,14 @@ def isotope_violations(ctx, key, envd, only_pos=None, count=True, shared=None):
                     why = ":small-argument"
                 if count:
                     ctx.case((row["row"], envkey(envd)), nontrivial=True, cls=["branch:" + br, "outcome:exception"])
-                yield Violation("c14:%s:exception:%s%s" % (br, type(e).__name__, why),
+                bucket = "c14:%s:exception:%s%s" % (br, type(e).__name__, why)
+                if br == "2n" and isinstance(e, ZeroDivisionError) and coincident_rates(row, envd):
+                    # S17 as planned in DESIGN section 5: the partial fractions of the '2n' branch
+                    # divide by the difference of two rates that are equal in double precision
+                    # (kappa = infinity) - same class as the cancellation finding
+                    bucket = "c14:2n:cancellation"
+                    why = " [two of the three rates coincide to within 8 eps: kappa = inf]"
+                yield Violation(bucket,
                                 "%s -> %s (%s): activity() raised %s: %s [exact value %s]"
                                 % (row["isotope"], row["daughter"], row["reaction"], type(e).__name__,
                                    str(e0 if type(e0) is type(e) else e)[:120],
@@ -997,6 +1025,67 @@ def task_families(ctx):
             ctx.check(check_sample, [atoms, envd, "NIST" if (n + m) % 2 == 0 else "IAEA"])
 
 
+# ----------------------------------------------------------------------
+# aimed probes: fluences at which two rates of a '2n' chain coincide
+AIMED_DELTAS = [0.0, 1e-9, -1e-9, 1e-7, -1e-7, 5e-7, -5e-7, 3e-6, -3e-6]
+AIMED_CD = [0.0, 1.0, 20.0]
+
+
+def clamp_exposure(x):
+    return float(min(max(x, 1e-3), 1e4))
+
+
+def task_aimed(ctx, part, parts):
+    """For every '2n' row and Cd ratio in {0, 1, 20}: the fluences (from the independent
+    reading of the table) at which target burn-up = product decay, intermediate removal =
+    product decay, target burn-up = intermediate removal; evaluated at fluence (1 + delta),
+    delta in {0, +-1e-9, +-1e-7, +-5e-7, +-3e-6}, exposure = T_half and T_half/10 of the product
+    (clamped to the domain); judged like every row."""
+    E = env()
+    rows2n = [r for r in E.rows if r["reaction"] == "2n"][part::parts]
+    for row in rows2n:
+        key = (row["Z"], row["A"])
+        for cd in AIMED_CD:
+            for name, f0 in ra.crossings_2n(row, cd):
+                ctx.count("aimed:" + name)
+                for d in AIMED_DELTAS:
+                    for ex in sorted(set([clamp_exposure(row["Thalf_hrs"]), clamp_exposure(row["Thalf_hrs"] / 10)])):
+                        envd = dict(fluence=float(f0 * (1.0 + d)), Cd=cd, fast=0.0, exposure=ex,
+                                    rests=[0.0, clamp_exposure(row["Thalf_hrs"])], mass=1.0, mass2=2.0, grow=0.5)
+                        for v in isotope_violations(ctx, key, envd, only_pos=row["pos"]):
+                            ctx.violation(v.bucket, "[aimed at %s, delta %g] %s" % (name, d, v.message), v.case)
+
+
+def task_aimed_b(ctx):
+    """The 'b' form has a removable singularity at lamp = lam.  No table row sits there, so
+    each 'b' row is probed with its parent half-life replaced by T_half (1 + delta), delta in
+    +-{1e-9, 1e-7, 5e-7, 3e-6} (a synthetic record passed to activity()); judged by the same
+    reference and classifier."""
+    E = env()
+    for row in [r for r in E.rows if r["reaction"] == "b"]:
+        iso = E.table[row["Z"]][row["A"]]
+        ai = iso.neutron_activation[row["pos"]]
+        for d in AIMED_DELTAS[1:]:
+            tp = row["Thalf_hrs"] * (1.0 + d)
+            row2 = dict(row, Thalf_parent=tp)
+            ai2 = type(ai)(**dict(vars(ai), Thalf_parent=tp))
+            for ex in sorted(set([clamp_exposure(row["Thalf_hrs"]), clamp_exposure(row["Thalf_hrs"] / 10)])):
+                envd = dict(fluence=1e12, Cd=20.0, fast=2.0, exposure=ex, rests=[0.0], mass=1.0, mass2=2.0, grow=0.5)
+                case = {"kind": "b-synthetic", "Z": row["Z"], "A": row["A"], "pos": row["pos"], "delta": d, "env": envd}
+                ctx.case(("aimed-b", row["row"], d, ex), nontrivial=True, cls=["aimed-b"])
+                try:
+                    got = E.act.activity(OneRow(iso, ai2), envd["mass"], make_env(E, envd), ex, [0.0])[ai2][0]
+                except Exception as e:  # noqa
+                    ctx.violation("c14:b:exception:%s:parent-halflife-near-product-halflife" % type(e).__name__,
+                                  "%s -> %s with parent half-life T(1%+g): %s: %s" % (row["isotope"], row["daughter"], d, type(e).__name__, e), case)
+                    continue
+                ref, _ = ra.solve(row2, envd["fluence"], envd["Cd"], envd["fast"], envd["mass"], ex)
+                verdict = classify(row2, envd, ex, got, ref)
+                if verdict is not None:
+                    ctx.violation("c14:b:%s" % verdict[0], "[parent half-life set to T(1%+g)] %s -> %s: %s"
+                                  % (d, row["isotope"], row["daughter"], verdict[1]), case)
+
+
 def task_rows(ctx, n, part, parts, epi=True):
     E = env()
     keys = E.keys[part::parts]
@@ -1017,6 +1106,8 @@ def tasks(tier):
         out.append(("families", task_families, {}))
         out.append(("table", task_table, {}))
         out += [("route-" + r, task_route, dict(route=r)) for r in ROUTES]
+        out += [("aimed-2n-%d" % k, task_aimed, dict(part=k, parts=4)) for k in range(4)]
+        out.append(("aimed-b", task_aimed_b, {}))
         return out
     out = []
     for rep in range(3):
@@ -1030,6 +1121,8 @@ def tasks(tier):
     out.append(("families", task_families, {}))
     out.append(("table", task_table, {}))
     out += [("route-" + r, task_route, dict(route=r)) for r in ROUTES]
+    out += [("aimed-2n-%d" % k, task_aimed, dict(part=k, parts=4)) for k in range(4)]
+    out.append(("aimed-b", task_aimed_b, {}))
     return out
 
 
@@ -1049,6 +1142,8 @@ def replay(ctx, case):
         check_sample(ctx, [case["atoms"], case["env"], case["abundance"]])
     elif kind == "reuse":
         check_reuse(ctx, case)
+    elif kind == "b-synthetic":
+        task_aimed_b(ctx)
     elif kind == "table":
         task_table(ctx)
     else:
